@@ -93,7 +93,7 @@ def solve(formula, display=True, log=False, params={}):
             raise AttributeError
         solution = Solution('Gurobi', grb.ObjVal, np.array(grb.getAttr('X')),
                             grb.Status, grb.Runtime, y=y)
-    except AttributeError:
+    except (AttributeError, GurobiError):
         warnings.warn('Fail to find the optimal solution.')
         # solution = None
         solution = Solution('Gurobi', np.nan, None, grb.Status, grb.Runtime)
